@@ -756,8 +756,14 @@ func c11Exec(k c11Cmd, stream []byte, timeout time.Duration, measure bool) *c11R
 				data = ovL(ovS(d.Mailbox), p32(d.NumMessages), ovN(uint64(d.UIDNext)), ovN(uint64(d.UIDValidity)), p32(d.NumUnseen),
 					p32(d.NumDeleted), p64(d.Size), p32(d.AppendLimit), p64(d.DeletedStorage), ovN(d.HighestModSeq))
 			}
-		case "List":
-			cmd := cl.List("", "*", nil)
+		case "List", "ListStatus":
+			var lo *imap.ListOptions
+			if k.Kind == "ListStatus" {
+				// LIST ... RETURN (STATUS ...): untagged STATUS responses are attached to the
+				// mailbox listed last (direct oracles only, the model has no such command)
+				lo = &imap.ListOptions{ReturnStatus: &imap.StatusOptions{NumMessages: true, NumUnseen: true}}
+			}
+			cmd := cl.List("", "*", lo)
 			close(sendCh)
 			var it []string
 			for {
